@@ -2,8 +2,10 @@ package main
 
 // Section Muc (property C18): the declarative facts of muc/muc.go and
 // muc/room.go the C18 model is built on — the capacities of the per-channel
-// join and depart channels, the stanza patterns HandleClient registers, and
-// the expression Channel.Joined returns.
+// join and depart channels, the stanza patterns HandleClient registers (type and
+// payload name, resolved to their literal values), the position of the payload
+// decoding relative to the table lookup in HandlePresence, and the expression
+// Channel.Joined returns.
 
 import (
 	"go/ast"
@@ -127,6 +129,148 @@ func (g *gen) mucTables() {
 	g.p("Definition muc_handles_unavailable_presence : bool := %s.\n", b("Presence/UnavailablePresence"))
 	g.p("Definition muc_handles_normal_message : bool := %s.\n", b("Message/NormalMessage"))
 	g.p("Definition muc_registrations : nat := %d.\n", total)
+
+	// the payload names of those registrations: the second argument of each
+	// mux.Presence/mux.Message call, an xml.Name literal or a local variable
+	// initialised with one; Space may be a package constant
+	nameLit := func(e ast.Expr) *ast.CompositeLit {
+		if id, is := e.(*ast.Ident); is {
+			var lit *ast.CompositeLit
+			ast.Inspect(hc, func(n ast.Node) bool {
+				as, is := n.(*ast.AssignStmt)
+				if !is || len(as.Lhs) != 1 || len(as.Rhs) != 1 {
+					return true
+				}
+				if l, is := as.Lhs[0].(*ast.Ident); is && l.Name == id.Name {
+					if cl, is := as.Rhs[0].(*ast.CompositeLit); is {
+						lit = cl
+					}
+				}
+				return true
+			})
+			return lit
+		}
+		if cl, is := e.(*ast.CompositeLit); is {
+			return cl
+		}
+		return nil
+	}
+	strOf := func(e ast.Expr) (string, bool) {
+		switch v := e.(type) {
+		case *ast.BasicLit:
+			if v.Kind == token.STRING {
+				s, err := strconv.Unquote(v.Value)
+				return s, err == nil
+			}
+		case *ast.Ident:
+			return constString(f, v.Name)
+		}
+		return "", false
+	}
+	type pat struct{ kind, typ, space, local string }
+	var pats []pat
+	okPats := true
+	ast.Inspect(hc, func(n ast.Node) bool {
+		call, is := n.(*ast.CallExpr)
+		if !is || len(call.Args) < 2 {
+			return true
+		}
+		sel, is := call.Fun.(*ast.SelectorExpr)
+		if !is {
+			return true
+		}
+		pkg, is := sel.X.(*ast.Ident)
+		if !is || pkg.Name != "mux" || (sel.Sel.Name != "Presence" && sel.Sel.Name != "Message") {
+			return true
+		}
+		p := pat{kind: sel.Sel.Name, typ: "?"}
+		if ts, is := call.Args[0].(*ast.SelectorExpr); is {
+			p.typ = ts.Sel.Name
+		}
+		lit := nameLit(call.Args[1])
+		if lit == nil {
+			okPats = false
+			return true
+		}
+		for _, el := range lit.Elts {
+			kv, is := el.(*ast.KeyValueExpr)
+			if !is {
+				okPats = false
+				continue
+			}
+			k, _ := kv.Key.(*ast.Ident)
+			v, ok := strOf(kv.Value)
+			if k == nil || !ok {
+				okPats = false
+				continue
+			}
+			switch k.Name {
+			case "Space":
+				p.space = v
+			case "Local":
+				p.local = v
+			}
+		}
+		pats = append(pats, p)
+		return true
+	})
+	if !okPats {
+		g.errs = append(g.errs, "muc/muc.go: HandleClient: a registered payload name is not a literal xml.Name")
+	}
+	// (kind, stanza type constant, name space, local name), in source order; an
+	// absent Space or Local is the empty string (= the multiplexer's wildcard)
+	g.p("Definition muc_patterns : list (bytes * bytes * bytes * bytes) :=\n  [")
+	for i, p := range pats {
+		if i > 0 {
+			g.p(";\n   ")
+		}
+		g.p("(hex \"%s\", hex \"%s\", hex \"%s\", hex \"%s\")", hexOf([]byte(p.kind)), hexOf([]byte(p.typ)), hexOf([]byte(p.space)), hexOf([]byte(p.local)))
+	}
+	g.p("].\n")
+	if v, ok := constString(f, "NSUser"); ok {
+		g.p("Definition muc_ns_user : bytes := hex \"%s\".\n", hexOf([]byte(v)))
+	} else {
+		g.errs = append(g.errs, "muc/muc.go: constant NSUser not found")
+	}
+
+	// HandlePresence: the table lookup and its `if !ok { return nil }` come before
+	// the first Decode call (presences of addresses that are not managed are
+	// dropped whatever their payload is)
+	hp := mucMethod(f, "Client", "HandlePresence")
+	if hp == nil || hp.Body == nil {
+		g.errs = append(g.errs, "muc/muc.go: method Client.HandlePresence not found")
+		return
+	}
+	var lookupPos, guardPos, decodePos token.Pos
+	ast.Inspect(hp.Body, func(n ast.Node) bool {
+		switch v := n.(type) {
+		case *ast.IndexExpr:
+			if sel, is := v.X.(*ast.SelectorExpr); is && sel.Sel.Name == "managed" && lookupPos == 0 {
+				lookupPos = v.Pos()
+			}
+		case *ast.IfStmt:
+			if un, is := v.Cond.(*ast.UnaryExpr); is && un.Op == token.NOT && guardPos == 0 && len(v.Body.List) == 1 {
+				if id, is := un.X.(*ast.Ident); is && id.Name == "ok" {
+					if rs, is := v.Body.List[0].(*ast.ReturnStmt); is && len(rs.Results) == 1 {
+						if nl, is := rs.Results[0].(*ast.Ident); is && nl.Name == "nil" {
+							guardPos = v.Pos()
+						}
+					}
+				}
+			}
+		case *ast.CallExpr:
+			if sel, is := v.Fun.(*ast.SelectorExpr); is && (sel.Sel.Name == "Decode" || sel.Sel.Name == "DecodeElement") && decodePos == 0 {
+				decodePos = v.Pos()
+			}
+		}
+		return true
+	})
+	before := lookupPos != 0 && guardPos != 0 && decodePos != 0 && lookupPos < guardPos && guardPos < decodePos
+	if before {
+		g.p("Definition muc_presence_lookup_before_decode : bool := true.\n")
+	} else {
+		g.p("Definition muc_presence_lookup_before_decode : bool := false.\n")
+	}
 
 	// Channel.Joined: `return c.joined`
 	jd := mucMethod(r, "Channel", "Joined")
